@@ -1,12 +1,58 @@
-import ColaVerif.Lemmas.BlockDiag
-import ColaVerif.Lemmas.KronSum
+import ColaVerif.Lemmas.OpMatmat
 
 /-!
 # C01 — an operator acts on arrays exactly as the matrix it represents (property theorems)
+
+`Op R` : operator expression trees over all modelled kinds (any depth, arity, shapes);
+`A.den` : the represented matrix (specification);
+`A.mm b X`, `A.td` : the code model of `A @ X` and `A.to_dense()` (cola/ops/operators.py).
+Hypotheses: `A.wf` (the constructor preconditions), `A.dupSlice = false` (clause
+`sliced-repeated-index`, a recorded defect: see `C01_clause_needed`), `A.HermOK` (every node that
+reports SelfAdjoint is Hermitian — what C05 establishes for inferred annotations and what the user
+promises for declared ones; it is only used by the default left-product shortcut).
 -/
 
+namespace C01
+variable {R : Type} [CommRing R] [StarRing R] [DecidableEq R]
+
+/-- `A @ X` is the represented matrix times `X`, for every tree, every number of columns. -/
+theorem C01_matmat_partial (A : Op R) (hwf : A.wf = true) (hnd : A.dupSlice = false) (hh : A.HermOK)
+    (b : Nat) (X : MatF R) :
+    EqOn A.rows b (A.mm b X).f (mmul A.cols A.den.f X) := Op.mm_eq A hwf hnd hh b X
+
+/-- a 1-D operand is reshaped to a column: the model of `A @ x` is the one-column case. -/
+theorem C01_matvec_partial (A : Op R) (hwf : A.wf = true) (hnd : A.dupSlice = false) (hh : A.HermOK)
+    (x : Nat → R) (i : Nat) (hi : i < A.rows) :
+    (A.mm 1 (fun q _ => x q)).f i 0 = ∑ q ∈ Finset.range A.cols, A.den.f i q * x q := by
+  have h := Op.mm_eq A hwf hnd hh 1 (fun q _ => x q) i 0 hi (by omega)
+  rw [h, mmul_apply]
+
+/-- `A.to_dense()` (kind-specific or through `A @ I` / `I @ A`) is the represented matrix. -/
+theorem C01_toDense_partial (A : Op R) (hwf : A.wf = true) (hnd : A.dupSlice = false) (hh : A.HermOK) :
+    EqOn A.rows A.cols A.td.f A.den.f := Op.td_eq A hwf hnd hh
+
+/-- the clause is needed: with a repeated index the scatter `Y[idx] = X` (last write wins) of
+`Sliced._matmat` loses a contribution — kernel-level witness (a 1×2 parent `[1 2]`, columns
+`[0, 0]`, operand `[1, 1]ᵀ`): the code gives 1, the represented matrix `[1 1]` gives 2. -/
+theorem C01_clause_needed :
+    let A : MatF Int := fun _ j => if j = 0 then 1 else 2
+    let act : MatF Int → MatF Int := fun Y => mmul 2 A Y
+    (slicedMatmat act [0] [0, 0] (fun _ _ => 1)).f 0 0 = 1 ∧
+      mmul 2 (slicedDen A [0] [0, 0]) (fun _ _ => 1) 0 0 = 2 := by
+  decide
+
+/-- non-vacuity: a nested tree satisfying the hypotheses. -/
+example :
+    let A : Op Int := .kron [.dense .f64 2 1 (fun i _ => i + 1), .prod [.eye .f64 2, .diag .f64 2 (fun i => i + 2)]]
+    A.wf = true ∧ A.dupSlice = false := by
+  simp [Op.wf, Op.dupSlice, Op.chainOk, Op.rows, Op.cols]
+
+end C01
+
+#print axioms C01.C01_matmat_partial
+#print axioms C01.C01_matvec_partial
+#print axioms C01.C01_toDense_partial
+#print axioms C01.C01_clause_needed
 #print axioms kronMatmat_eq
 #print axioms kronSumMatmat_eq
 #print axioms bdiagMatmat_eq
-#print axioms kronDense_eq
-#print axioms kronSumDense_eq
